@@ -151,6 +151,9 @@ class BytesUnmarshaller(AbstractUnmarshaller[BytesT], tp.Generic[BytesT]):
     def __call__(self, val: tp.Any) -> BytesT:
         if isinstance(val, self.t):
             return val
+        # Another bytes-like class: take its content, `str()` would give its repr.
+        if isinstance(val, (bytes, bytearray, memoryview)):
+            return self.t(bytes(val))
         # Always encode date/time as ISO strings.
         if isinstance(val, (datetime.date, datetime.time, datetime.timedelta)):
             val = serdes.isoformat(val)
